@@ -22,7 +22,8 @@ Inductive sentence :=
 | SChoice (c : choice)                                                    (* Every c [X] can <verb> [card] a d [Y] [for each e]. *)
 | SDef (subj label newpred : string) (body : list clause)                 (* A c X is <newpred> when cl1 [and also cl2 ...]. *)
 | SCons (required : bool) (whenpart main : list clause) (wh : option wherec)   (* It is R that [when W then] M [, where X ph Y]. *)
-| SOneOf (label : string) (vals : list Z) (x : sentence).                      (* <definition or constraint>, where L is one of v1, v2. *)
+| SOneOf (label : string) (vals : list Z) (x : sentence)                       (* <definition or constraint>, where L is one of v1, v2. *)
+| SThere (required neg : bool) (v : verb) (sval oval : string).                (* It is R that there is [not] a <verb> with c k equal to a, with d k equal to b. *)
 
 Record spec := { concepts : list concept; sentences : list sentence }.
 
@@ -114,7 +115,11 @@ Fixpoint compile_sentence (s : spec) (x : sentence) : list nrule :=
   | SCons required whenpart main wh =>
       [NCons (dedup_keep_last (flat_map (clause_lits false) whenpart ++ flat_map (clause_lits required) main)
               ++ match wh with Some w => where_lit w | None => [] end)%list]
-  | SOneOf l vals y => flat_map (fun v => map (add_eq l v) (compile_sentence s y)) vals
+  (* a later "and M is one of ..." clause is the outer constructor: each rule made so far is copied once per value *)
+  | SOneOf l vals y => flat_map (fun r => map (fun v => add_eq l v r) vals) (compile_sentence s y)
+  | SThere required neg v sval oval =>
+      let a := {| na_pred := verb_pred v; na_args := [TConst (term_of_token sval); TConst (term_of_token oval)] |} in
+      [NCons [if xorb required neg then BNeg a else BPos a]]
   end.
 
 Definition compile (s : spec) : list nrule := (flat_map compile_concept (concepts s) ++ flat_map (compile_sentence s) (sentences s))%list.
@@ -251,6 +256,9 @@ Fixpoint r_sentence_ok (s : spec) (I : interp) (ok : subst -> bool) (x : sentenc
                     (typed_bindings s (clause_labels (whenpart ++ main))))
   | SOneOf l vals y =>
       r_sentence_ok s I (fun sg => ok sg && existsb (fun v => String.eqb (lookup sg l) (show_Z v)) vals) y
+  | SThere required neg v sval oval =>
+      (* required and positive, or prohibited and negated: the named instance holds; otherwise it does not *)
+      Bool.eqb (holds I (atom_text (verb_pred v) [term_of_token sval; term_of_token oval])) (xorb required neg)
   end.
 Definition r_sentence (s : spec) (I : interp) (x : sentence) : bool := r_sentence_ok s I (fun _ => true) x.
 
@@ -266,7 +274,8 @@ Definition admissible (s : spec) (a : gatom) : bool :=
                                                                      (dom_of s (ch_obj c))) (dom_of s (ch_subj c))) fes
                     | SDef subj _ newpred _ => existsb (fun x0 => String.eqb a (atom_text newpred [x0])) (dom_of s subj)
                     | SCons _ _ _ _ => false
-                    | SOneOf _ _ _ => false end) (sentences s).
+                    | SOneOf _ _ _ => false
+                    | SThere _ _ _ _ _ => false end) (sentences s).
 
 Definition reading (s : spec) (I : interp) : bool :=
   r_domains s I && forallb (admissible s) I && forallb (r_sentence s I) (sentences s).
